@@ -10,3 +10,4 @@ def plan(ctx, base):
     return [(f, n * mul) for f, n in base]
 RECOVERY_KINDS = ["reset", "txp", "txf", "packet_sent", "ack_range", "packet_lost", "metrics", "space_discarded", "active_path", "panic", "stall"]
 RECOVERY_ONLY = {"txf": '"ty":"conn_close"'}
+AMP_KINDS = ["reset", "datagram_received", "datagram_sent", "rxp", "txp", "txf", "endpoint_datagram_dropped", "endpoint_packet_sent", "dg", "panic", "stall"]
